@@ -298,7 +298,13 @@ func (o *Overlay) checkPendingTreeMarshal(el *Roster) {
 		o.pendingTreeLock.Unlock()
 		return
 	}
+	// every pending description is used once
+	delete(o.pendingTreeMarshal, el.ID)
 	for _, tm := range sl {
+		if o.treeStorage.Get(tm.TreeID) != nil {
+			// received in the meantime: a tree in use is never replaced
+			continue
+		}
 		tree, err := tm.MakeTree(el)
 		if err != nil {
 			log.Error("Tree from Roster failed")
@@ -463,10 +469,10 @@ func (o *Overlay) handleSendTreeMarshal(si *network.ServerIdentity, tm *TreeMars
 		return
 	}
 
-	if !o.treeStorage.IsRegistered(tm.TreeID) {
-		// we only accept known trees to prevent a denial of service
-		// by filling up the storage
-		log.Error("ignoring unknown tree")
+	if !o.treeStorage.IsRequested(tm.TreeID) {
+		// we only accept trees we asked for and did not get yet: a peer can
+		// neither fill up the storage nor replace a tree that is in use
+		log.Error("ignoring tree that is not awaited")
 		return
 	}
 
@@ -513,10 +519,10 @@ func (o *Overlay) handleSendTree(si *network.ServerIdentity, rt *ResponseTree, i
 		return
 	}
 
-	if !o.treeStorage.IsRegistered(rt.TreeMarshal.TreeID) {
-		// we only accept known trees to prevent a denial of service
-		// by filling up the storage
-		log.Error("ignoring unknown tree")
+	if !o.treeStorage.IsRequested(rt.TreeMarshal.TreeID) {
+		// we only accept trees we asked for and did not get yet: a peer can
+		// neither fill up the storage nor replace a tree that is in use
+		log.Error("ignoring tree that is not awaited")
 		return
 	}
 
